@@ -102,7 +102,43 @@ type Explorer struct {
 	GoSpawned       int
 	LockFaults      []string
 	maxViolPerLabel int
+	Validation       []ValidationSample
+	wantValidation   int
+	validationStride int
 	expectPanic     map[string]bool
+}
+
+// ValidationSample is a model of a completed path together with the values
+// the engine computed for the harness observations; the check replays it
+// natively and compares (encoder validation, every run).
+type ValidationSample struct {
+	Harness  string            `json:"harness"`
+	Model    map[string]uint64 `json:"model"`
+	Observed map[string]string `json:"observed"`
+	Trace    string            `json:"trace"`
+}
+
+func (ex *Explorer) validationSample() (ValidationSample, bool) {
+	if ex.model == nil {
+		res, m := ex.solver.Check(ex.pc, nil, true)
+		if res != Sat {
+			return ValidationSample{}, false
+		}
+		ex.model = m
+	}
+	vs := ValidationSample{Harness: ex.harness, Model: map[string]uint64{}, Observed: map[string]string{}, Trace: ex.traceString()}
+	for _, in := range ex.inputs {
+		vs.Model[in.Name] = ex.model[in.Name]
+	}
+	for k, v := range ex.model {
+		vs.Model[k] = v
+	}
+	for _, o := range ex.observed {
+		if s, ok := renderObserved(o.Val, ex.model); ok {
+			vs.Observed[o.Name] = s
+		}
+	}
+	return vs, true
 }
 
 type Observation struct {
@@ -126,7 +162,7 @@ func NewExplorer(s *Solver, i *interpreter) *Explorer {
 		unwind: 64, maxDepth: 4000, allocLimit: 1 << 16, maxPaths: 200000,
 		PathKinds: map[string]int{}, violSeen: map[string]int{}, KnownHits: map[string]int{},
 		Reach: map[string]bool{}, ReachWanted: map[string]bool{}, Unsupported: map[string]int{},
-		maxViolPerLabel: 1,
+		maxViolPerLabel: 1, wantValidation: 3, validationStride: 7,
 	}
 }
 
@@ -591,6 +627,11 @@ func (ex *Explorer) Run(name string, body func()) {
 			ex.Unsupported[end.msg]++
 		case "unwind", "step-limit", "depth-limit":
 			ex.Incomplete = append(ex.Incomplete, end.kind+": "+end.msg)
+		}
+		if end.kind == "done" && (len(ex.Validation) < ex.wantValidation) && (ex.Paths%ex.validationStride == 0 || len(ex.Validation) < 2) {
+			if v, ok := ex.validationSample(); ok {
+				ex.Validation = append(ex.Validation, v)
+			}
 		}
 		if len(ex.Samples) < 4 || (ex.Paths%97 == 0 && len(ex.Samples) < 12) {
 			ex.Samples = append(ex.Samples, ex.sample(end))
